@@ -310,6 +310,12 @@ static std::string c11_config(Rng &r, const World &w, int *cls) {
     // every option appears with probability 1/2, so that later calls often lack what earlier ones set
     if (r.chance(1, 2)) { s.has_format = true; s.format = "fmt" + std::to_string(r.below(1000)) + " %{filename} %{cmdline}" + (r.chance(1, 3) ? " %{uid}" : ""); }
     if (r.chance(1, 2)) { s.has_chain = true; s.chain = r.chance(1, 2) ? "only_uid:" + std::to_string(w.uid) : r.chance(1, 2) ? "exclude_uid:" + std::to_string(w.uid) : "noop;nosuch"; }
+    if (r.chance(1, 5)) {   // long lists that differ only far behind their beginning, from one version of the file to the next
+        std::string anc = "nosuchancestor"; if (w.procs.size() >= 2) { anc = w.procs[1].comm; for (char ch : anc) if (!isalnum((unsigned char)ch) && ch != '-' && ch != '_') anc = "nosuchancestor"; }
+        std::string pfx; for (int k = 0; pfx.size() < 135; k++) pfx += "prog" + std::to_string(k) + "name,";
+        static const char *tail[] = {"", "zz", "nosuch1,nosuch2"};
+        s.has_chain = true; s.chain = "exclude_spawns_of:" + pfx + (r.chance(1, 2) ? anc : std::string(tail[r.below(3)]));
+    }
     if (r.chance(1, 2)) { s.has_output = true; static const char *o[] = {"file:/log/c11-a.log", "file:/log/c11-b.log", "stderr", "stdout", "devlog", "socket:/run/snoopy-0.sock", "devnull", "file", "bogus", "devtty"}; s.output = o[r.below(10)]; }
     if (r.chance(1, 2)) { s.has_facility = true; s.facility = r.chance(1, 6) ? "invalid" : FAC_NAMES[r.below(20)]; }
     if (r.chance(1, 2)) { s.has_level = true; s.level = r.chance(1, 6) ? "invalid" : LEV_NAMES[r.below(8)]; }
